@@ -137,6 +137,25 @@ func runSource(ti int, src string, check bool) *textOut {
 		return o
 	}
 	if len(dl) > 0 {
+		if check {
+			// checker.CheckSource is the entry point `elk run` uses: it must hand back the parser's
+			// diagnostics for an erroneous text. Its outcome is not a stage of its own in the outcome
+			// model (the run is parse -> repl -> report), so it is logged only when it fails.
+			var probe []string
+			currentStage = "check"
+			if !stage(ti, "check", &probe, &o.Fails, func() (bool, error) {
+				elk.InitGlobalEnvironment()
+				var flags bitfield.BitField16
+				_, cdl := checker.CheckSource("main.elk", src, nil, flags, nil)
+				if len(cdl) == 0 {
+					return false, fmt.Errorf("checker.CheckSource returned no diagnostics for a text with syntax errors")
+				}
+				return true, nil
+			}) {
+				log = append(log, probe...)
+				return o
+			}
+		}
 		report(ti, &log, &o.Fails, dl, "main.elk", src)
 		return o
 	}
